@@ -59,9 +59,13 @@ def c05(tier):
 def c06(tier):
     t0 = time.time()
     cov, viols, inc = _with_sets("C06", tier, small_space=False)
+    c2, v2, i2 = sets.run_engine("C06", tier, sets.REALLOC_DIRECT, 4, 4, crash_owners=("C06",), any_prop=True)
+    cov, viols, inc = sets.merge_cov(cov, c2), viols + v2, inc + i2
     cov["rule"] = VEC_RULE + ("Judge: allocator ledger (pointer -> byte count, allocator family) checked on every allocate/deallocate/reallocate, zero outstanding "
                               "blocks when all containers of a history are destroyed; reallocate only for relocatable element types with true old capacity "
-                              "and live count; LeakSanitizer for the stock allocators.")
+                              "and live count; LeakSanitizer for the stock allocators. Plus a direct driver of BasicAllocatorWrapper::reallocate over the complete "
+                              "grid old capacity 1..9 x new capacity 1..12 x live count, for TC/TR/non-TR elements, instrumented basic allocator (always moves, "
+                              "poisons the old block) and amc::allocator (realloc): the live prefix must be preserved by value and identity.")
     return core.finish("C06", tier, "exploration", cov, viols, inc, t0, ASSUME_SAN, min_evals=1000)
 
 
@@ -119,7 +123,7 @@ def c12(tier):
     cfgs = sets.HG_QUICK + (sets.HG_THOROUGH if tier == "thorough" else [])
     k = 9 if tier == "thorough" else 6
     total = 1 << k
-    cov, viols, inc = sets.run_engine("C12", tier, cfgs, total, total, extra_args=["--k9"] if k == 9 else [], crash_owners=("C12",))
+    cov, viols, inc = sets.run_engine("C12", tier, cfgs, total, total, extra_args=["--k9"] if k == 9 else [], crash_owners=("C12",), any_prop=True)
     triples = 0
     cov["rule"] = ("complete enumeration: every subset of a %d-key domain (keys spaced by 2) x every hint position in [begin,end] x every value (below, each key, "
                    "each gap, above) x {insert(hint,const&), insert(hint,&&), emplace_hint}, per (comparator, underlying vector) configuration; judged against plain "
@@ -155,7 +159,7 @@ def c18(tier):
 def c10(tier):
     t0 = time.time()
     cfgs = vec.ALIAS_QUICK + (vec.ALIAS_THOROUGH if tier == "thorough" else [])
-    cov, viols, inc = sets.run_engine("C10", tier, cfgs, 36, 36, extra_args=["--wide"] if tier == "thorough" else [], crash_owners=("C10",))
+    cov, viols, inc = sets.run_engine("C10", tier, cfgs, 36, 36, extra_args=["--wide"] if tier == "thorough" else [], crash_owners=("C10",), any_prop=True)
     # the same aliased calls embedded in the random histories of the C01 engine
     c2, v2, i2 = vec.run("C10", tier, hist_quick=120, hist_thorough=1200)
     cov = sets.merge_cov(cov, c2)
@@ -171,7 +175,7 @@ def c10(tier):
 def c08(tier):
     t0 = time.time()
     cfgs = vec.LIMITS_QUICK + (vec.LIMITS_THOROUGH if tier == "thorough" else [])
-    cov, viols, inc = sets.run_engine("C08", tier, cfgs, 24, 24, extra_args=["--deep"] if tier == "thorough" else [], crash_owners=("C08",))
+    cov, viols, inc = sets.run_engine("C08", tier, cfgs, 24, 24, extra_args=["--deep"] if tier == "thorough" else [], crash_owners=("C08",), any_prop=True)
     cov["rule"] = ("complete boundary grid per configuration: every fill in the neighbourhood of the limit (all fills for N<=8) x spare-capacity mode x every growing "
                    "operation (24 forms incl. constructors and at()) x positions {0,1,mid,size-1,size} x counts with size+count in [limit-1,limit+3], 0, max and "
                    "max-1 of the size_type x 4 range iterator categories; expected verdict computed in uintmax_t by the harness; after a throw the snapshot "
@@ -184,9 +188,9 @@ def c08(tier):
 def c09(tier):
     t0 = time.time()
     cfgs = vec.FAULT_QUICK + (vec.FAULT_THOROUGH if tier == "thorough" else [])
-    cov, viols, inc = sets.run_engine("C09", tier, cfgs, 27, 27, extra_args=["--wide"] if tier == "thorough" else [], crash_owners=("C09",))
+    cov, viols, inc = sets.run_engine("C09", tier, cfgs, 27, 27, extra_args=["--wide"] if tier == "thorough" else [], crash_owners=("C09",), any_prop=True)
     scfgs = sets.SETFAULT_QUICK + (sets.SETFAULT_THOROUGH if tier == "thorough" else [])
-    c2, v2, i2 = sets.run_engine("C09", tier, scfgs, 13, 13, crash_owners=("C09",))
+    c2, v2, i2 = sets.run_engine("C09", tier, scfgs, 13, 13, crash_owners=("C09",), any_prop=True)
     cov, viols, inc = sets.merge_cov(cov, c2), viols + v2, inc + i2
     ob = cov.get("observed", {})
     cov["rule"] = ("fault enumeration: scenario = (configuration, state {size 0/2/5 x natural, heap-full, exact room, more room}, operation (27 forms), position "
@@ -207,7 +211,7 @@ def c09(tier):
 def c13(tier):
     t0 = time.time()
     cfgs = vec.SWAP2_QUICK + (vec.SWAP2_THOROUGH if tier == "thorough" else [])
-    cov, viols, inc = sets.run_engine("C13", tier, cfgs, 120, 120, extra_args=["--wide"] if tier == "thorough" else [], crash_owners=("C13",))
+    cov, viols, inc = sets.run_engine("C13", tier, cfgs, 120, 120, extra_args=["--wide"] if tier == "thorough" else [], crash_owners=("C13",), any_prop=True)
     # swap2 interleaved with the other operations in random histories over mixed pools
     c2, v2, i2 = vec.run("C13", tier, extra_args=["--swap2-heavy"], hist_quick=120, hist_thorough=1500)
     cov = sets.merge_cov(cov, c2)
@@ -222,7 +226,7 @@ def c13(tier):
 def c15(tier):
     t0 = time.time()
     cfgs = sets.ALGO_QUICK + (sets.ALGO_THOROUGH if tier == "thorough" else [])
-    cov, viols, inc = sets.run_engine("C15", tier, cfgs, 17, 17, crash_owners=("C15",))
+    cov, viols, inc = sets.run_engine("C15", tier, cfgs, 17, 17, crash_owners=("C15",), any_prop=True)
     ob = cov.get("observed", {})
     cov["rule"] = ("every algorithm of amc/memory.hpp x range length 0..5 x source iterator category {pointer, random access, bidirectional, forward, move_iterator} x "
                    "value category {int, trivially copyable struct, declared-relocatable, non-relocatable, non-relocatable with throwing move} x every throw index "
@@ -312,7 +316,7 @@ def c20_check(tier):
 
 def all_quick_specs():
     cfgs = (list(vec.QUICK) + sets.FS_QUICK + sets.SS_SPACE_QUICK + sets.SS_HIST_QUICK + sets.HG_QUICK + sets.COST_QUICK + vec.GROWTH_QUICK +
-            vec.ALIAS_QUICK + vec.LIMITS_QUICK + vec.FAULT_QUICK + sets.SETFAULT_QUICK + vec.SWAP2_QUICK + sets.ALGO_QUICK)
+            vec.ALIAS_QUICK + vec.LIMITS_QUICK + vec.FAULT_QUICK + sets.SETFAULT_QUICK + vec.SWAP2_QUICK + sets.ALGO_QUICK + sets.REALLOC_DIRECT)
     return [c.spec() for c in cfgs]
 
 
